@@ -70,7 +70,7 @@ type tierCfg struct {
 var tiers = map[string]map[string]tierCfg{
 	"C09": {"quick": {48, 60}, "thorough": {4800, 1500}},
 	"C08": {"quick": {2400, 50}, "thorough": {5000000, 1500}},
-	"C10": {"quick": {1600, 50}, "thorough": {8000000, 1200}},
+	"C10": {"quick": {2400, 90}, "thorough": {8000000, 1200}},
 	"C06": {"quick": {52000, 120}, "thorough": {20000000, 1200}},
 	"C19": {"quick": {2400, 50}, "thorough": {5000000, 1200}},
 }
